@@ -50,6 +50,7 @@ T = {
  "C20-B": ("_act_size memoises the output element count per layer name", "a trial whose same-named layer has another output shape than the reference (tune_filters with a factor != 1)"),
 }
 H = {
+ "C20-A": "MISSED by the first evaluation (exit 0): no scenario passed an empty selection. Scenarios `empty_selection.*` (layer_indexes=[]) and `single_index.*` were added (and the domain test now covers unselected layers, whose kernel decision the library asks for anyway); re-evaluated: CAUGHT (excluded_layer_changed / not_in_layer_indexes)",
  "C07-A": "check strengthened after reading the sub-agent's description and before the first evaluation: a 'traced_variable' way (factor set before build, quantizer traced in a tf.function, later factors through the Variable) was added; the earlier eager-only workload could not have seen it",
  "C08-A": "exact half-way tie inputs added to the inference comparison before evaluation (random inputs never hit a tie)",
  "C08-B": "the two extreme legal draws u=0 and u=1-2^-23 added to the controlled stream before evaluation (grid draws never come within an ulp of 1)",
